@@ -283,6 +283,25 @@ Qed.
 Example C05F_tag_missing_rejected : de nore nore T_tag 20 4%N v_tag_missing = None.
 Proof. vm_compute. reflexivity. Qed.
 
+(* ------------------------------------------------------------------ untagged enums over plain scalar arms
+   (corpus/convert/enum_untagged_example.json): Check/Exact.v claims of such a union only that it is neither a
+   nullable nor a tagged one *)
+Definition D_unt : defs := [([85]%N, (SObj None None None None (mkNumv None None None None None) (mkStrv None None None) ItemsAbsent (@nil schema) None None None false (@nil (ustring * schema)) (@nil ustring) None None None None None (Some [(SObj (Some [TString]) None None None (mkNumv None None None None None) (mkStrv None None None) ItemsAbsent (@nil schema) None None None false (@nil (ustring * schema)) (@nil ustring) None None None None None None None None None None); (SObj (Some [TInteger]) (Some [105; 110; 116; 51; 50]%N) None None (mkNumv None None None None None) (mkStrv None None None) ItemsAbsent (@nil schema) None None None false (@nil (ustring * schema)) (@nil ustring) None None None None None None None None None None); (SObj (Some [TBoolean]) None None None (mkNumv None None None None None) (mkStrv None None None) ItemsAbsent (@nil schema) None None None false (@nil (ustring * schema)) (@nil ustring) None None None None None None None None None None)]) None None None None)); ([87]%N, (SObj (Some [TObject]) None None None (mkNumv None None None None None) (mkStrv None None None) ItemsAbsent (@nil schema) None None None false [([110]%N, (SObj None None None None (mkNumv None None None None None) (mkStrv None None None) ItemsAbsent (@nil schema) None None None false (@nil (ustring * schema)) (@nil ustring) None None None None None (Some [(SObj (Some [TNumber]) None None None (mkNumv None None None None None) (mkStrv None None None) ItemsAbsent (@nil schema) None None None false (@nil (ustring * schema)) (@nil ustring) None None None None None None None None None None); (SObj (Some [TString]) None None None (mkNumv None None None None None) (mkStrv None None None) ItemsAbsent (@nil schema) None None None false (@nil (ustring * schema)) (@nil ustring) None None None None None None None None None None)]) None None None None)); ([117; 115]%N, (SObj (Some [TArray]) None None None (mkNumv None None None None None) (mkStrv None None None) ItemsSingle [(SObj None None None None (mkNumv None None None None None) (mkStrv None None None) ItemsAbsent (@nil schema) None None None false (@nil (ustring * schema)) (@nil ustring) None None None None None None None (Some [85]%N) None None)] None None None false (@nil (ustring * schema)) (@nil ustring) None None None None None None None None None None))] [[110]%N; [117; 115]%N] None None None None None None None None None None))].
+Definition T_unt : space := (mkSpace [(1%N, (mkEntry (DEnum [85]%N None TagUntagged [(mkVariant [86; 97; 114; 105; 97; 110; 116; 48]%N [86; 97; 114; 105; 97; 110; 116; 48]%N (VItem 3%N)); (mkVariant [86; 97; 114; 105; 97; 110; 116; 49]%N [86; 97; 114; 105; 97; 110; 116; 49]%N (VItem 4%N)); (mkVariant [86; 97; 114; 105; 97; 110; 116; 50]%N [86; 97; 114; 105; 97; 110; 116; 50]%N (VItem 5%N))] false [UntaggedFromStr; UntaggedDisplay]) (@nil ustring))); (2%N, (mkEntry (DStruct [87]%N None [(mkProp [110]%N RNone PRequired 7%N); (mkProp [117; 115]%N RNone PRequired 8%N)] false) (@nil ustring))); (3%N, (mkEntry DString (@nil ustring))); (4%N, (mkEntry (DInteger [105; 51; 50]%N) (@nil ustring))); (5%N, (mkEntry DBoolean (@nil ustring))); (6%N, (mkEntry (DFloat [102; 54; 52]%N) (@nil ustring))); (7%N, (mkEntry (DEnum [87; 78]%N None TagUntagged [(mkVariant [86; 97; 114; 105; 97; 110; 116; 48]%N [86; 97; 114; 105; 97; 110; 116; 48]%N (VItem 6%N)); (mkVariant [86; 97; 114; 105; 97; 110; 116; 49]%N [86; 97; 114; 105; 97; 110; 116; 49]%N (VItem 3%N))] false [UntaggedFromStr; UntaggedDisplay]) (@nil ustring))); (8%N, (mkEntry (DVec 1%N) (@nil ustring)))] 9%N (mkSettings None (@nil ustring) false [58; 58; 32; 115; 116; 100; 32; 58; 58; 32; 99; 111; 108; 108; 101; 99; 116; 105; 111; 110; 115; 32; 58; 58; 32; 72; 97; 115; 104; 77; 97; 112]%N) false false false false (@nil ustring)).
+
+Example C05F_unt_in_frag : in_frag_exact Sanitize.ascii_classes D_unt = true.
+Proof. vm_compute. reflexivity. Qed.
+
+Example C05F_unt_convert : convert_doc Sanitize.ascii_classes D_unt = Some T_unt.
+Proof. vm_compute. reflexivity. Qed.
+
+Example C05F_unt_exact : exact_all nore D_unt T_unt (pairs_of D_unt) = true.
+Proof. exact (C05F_convert_exact Sanitize.ascii_classes nore D_unt T_unt C05F_unt_in_frag C05F_unt_convert). Qed.
+
+(* a value of none of the arms' types, by evaluation *)
+Example C05F_unt_rejected : de nore nore T_unt 20 1%N (JArr []) = None.
+Proof. vm_compute. reflexivity. Qed.
+
 (* the side condition: ONE typed branch whose payload is a one-string enum reads as a tagged union keyed on
    the variant name (Check/Exact.v common_tag); the converter makes it an external enum: outside in_frag_exact *)
 Definition D_pin : defs := [([69]%N, (SObj None None None None (mkNumv None None None None None) (mkStrv None None None) ItemsAbsent (@nil schema) None None None false (@nil (ustring * schema)) (@nil ustring) None None None None None (Some [(SObj (Some [TObject]) None None None (mkNumv None None None None None) (mkStrv None None None) ItemsAbsent (@nil schema) None None None false [([98]%N, (SObj (Some [TString]) None (Some [(JStr [107]%N)]) None (mkNumv None None None None None) (mkStrv None None None) ItemsAbsent (@nil schema) None None None false (@nil (ustring * schema)) (@nil ustring) None None None None None None None None None None))] [[98]%N] (Some (SBool false)) None None None None None None None None None)]) None None None None))].
